@@ -230,4 +230,94 @@ def downsampled (dsmp : List Val → List Val → List Bool) (lg : Val → Val) 
 def linspaceAt (lo hi : Rat) (n i : Nat) : Rat :=
   if n ≤ 1 then lo else lo + (i : Rat) * ((hi - lo) / ((n : Rat) - 1))
 
+/-! ## the registry of statistics and `get_statistics` (`dclab.statistics`)
+
+The registry `Statistics.available_methods` (name, `req_feature`) is *regenerated from the source*
+on every run (`Gen/StatsTable.lean`); the model below is parametrised by a registry `reg` and by
+the two floating-point library functions that occur in the registered methods. -/
+
+/-- floating-point library functions used by the registered methods (parameters) -/
+structure FP where
+  /-- the square root in `np.std` -/
+  sqrt : Rat → Rat
+  /-- `n ** (1/3)` in `statistics.mode` -/
+  cbrt : Nat → Rat
+
+/-- "SD": `np.std` = `sqrt` of the population variance -/
+def sd (sqrt : Rat → Rat) (d : List Rat) : Option Rat := (variance d).map sqrt
+
+/-- "Mode": `statistics.mode` — the Freedman–Diaconis bin size `2·(p75 − p25) / n^(1/3)` from the
+percentile rule, `nan` for bin size 0, then the most frequent binned value -/
+def modeFD (cbrt : Nat → Rat) (d : List Rat) : Option Rat :=
+  match percentile d (3 / 4), percentile d (1 / 4) with
+  | some a, some b => modeOf (2 * (a - b) / cbrt d.length) d
+  | _, _ => none
+
+/-- the median written with the percentile rule (`np.median(d) = np.percentile(d, 50)`) -/
+def medianP (d : List Rat) : Option Rat := percentile d (1 / 2)
+
+/-- which registered names the model knows, and whether they need a feature -/
+def kindOf (name : String) : Option Bool :=
+  if name = "Mean" ∨ name = "Median" ∨ name = "Mode" ∨ name = "SD" then some true
+  else if name = "Events" ∨ name = "%-gated" ∨ name = "Flow rate" then some false
+  else none
+
+/-- methods registered with `req_feature=True`: functions of the purged feature data; every one
+of them returns `none` (= nan, `Statistics.__call__`: `len(data) == 0`) for no data -/
+def featMethod (fp : FP) (name : String) : Option (List Rat → Option Rat) :=
+  if name = "Mean" then some mean
+  else if name = "Median" then some median
+  else if name = "Mode" then some (modeFD fp.cbrt)
+  else if name = "SD" then some (sd fp.sqrt)
+  else none
+
+/-- methods that receive the dataset: functions of the filter array and the configuration
+(`flow` = `config["setup"]["flow rate"]`, `none` = key missing = nan); `Statistics.__call__`
+answers nan for a dataset without events (`len(ds) == 0`) -/
+def dsMethod (m : List Bool) (flow : Option Rat) (name : String) : Option (Option Rat) :=
+  if name = "Events" then some (if m.isEmpty then none else some ((events m : Nat) : Rat))
+  else if name = "%-gated" then some (gated m)
+  else if name = "Flow rate" then some (if m.isEmpty then none else flow)
+  else none
+
+/-- `Statistics.available_methods[name](ds=ds, feature=feat)`; outer `none`: the name is not
+registered (`KeyError`) or not modelled; inner `none`: nan -/
+def statCall (fp : FP) (reg : List (String × Bool)) (name : String) (enable : Bool)
+    (m : List Bool) (flow : Option Rat) (xs : List Val) : Option (Option Rat) :=
+  match reg.lookup name with
+  | none => none
+  | some true => (featMethod fp name).map fun g => statFeat g enable m xs
+  | some false => dsMethod m flow name
+
+/-- one entry of the answer of `get_statistics`: method, feature (none for dataset methods), value -/
+structure Slot where
+  method : String
+  feature : Option String
+  value : Option (Option Rat)
+  deriving DecidableEq, Repr
+
+/-- `methods=None`: methods without a feature first, then those with one, each in registry order -/
+def defaultMethods (reg : List (String × Bool)) : List String :=
+  ((reg.filter fun e => !e.2).map (·.1)) ++ ((reg.filter fun e => e.2).map (·.1))
+
+/-- the requested methods that do / do not need a feature, in request order -/
+def methodsOf (reg : List (String × Bool)) (flag : Bool) (methods : List String) : List String :=
+  methods.filter fun mt => reg.lookup mt == some flag
+
+/-- `get_statistics(ds, methods, features)`.  `feats` = the requested features in request order:
+lower-cased name and column (`none`: `ft not in ds`, every value is nan).  Answer: first the
+dataset methods in request order, then feature by feature all feature methods in request order
+(`none` = `KeyError` for a name that is not registered). -/
+def getStatistics (fp : FP) (reg : List (String × Bool)) (methods : Option (List String))
+    (feats : List (String × Option (List Val))) (enable : Bool) (m : List Bool)
+    (flow : Option Rat) : Option (List Slot) :=
+  let ms := methods.getD (defaultMethods reg)
+  if ms.all (fun mt => (reg.lookup mt).isSome) then
+    some (((methodsOf reg false ms).map fun mt => Slot.mk mt none (statCall fp reg mt enable m flow []))
+      ++ feats.flatMap fun ft => (methodsOf reg true ms).map fun mt =>
+        Slot.mk mt (some ft.1) (match ft.2 with
+          | some xs => statCall fp reg mt enable m flow xs
+          | none => some none))
+  else none
+
 end DclabModel.Stats
